@@ -349,8 +349,17 @@ macro_rules! family {
             }
 
             pub fn strat_compose3(with_source: bool) -> BoxedStrategy<Vec<u64>> {
-                (0u64..8, (sexp_strat(), sexp_strat(), sexp_strat()), quat_strat(), (tr_strat(), tr_strat(), tr_strat()), 0u64..2)
-                    .prop_map(move |(sp, e, q, tr, src)| {
+                // a tenth of the cases: nearly (not exactly) uniform scale of any size, |s_i| = |s_0| (1 +- 10^-j), where a shortcut
+                // for "uniform" keyed on an absolute difference would merge them
+                let near_uniform = (0u8..10, 5.0f64..15.5, 5.0f64..15.5, any::<bool>(), any::<bool>());
+                (0u64..8, (sexp_strat(), sexp_strat(), sexp_strat()), near_uniform, quat_strat(), (tr_strat(), tr_strat(), tr_strat()), 0u64..2)
+                    .prop_map(move |(sp, e, nu, q, tr, src)| {
+                        let e = if nu.0 == 0 {
+                            let d = |j: f64, neg: bool| (1.0 + 10f64.powf(-j) * if neg { -1.0 } else { 1.0 }).log10();
+                            (e.0, e.0 + d(nu.1, nu.3), e.0 + d(nu.2, nu.4))
+                        } else {
+                            e
+                        };
                         let mut w = vec![sp, e.0.to_bits(), e.1.to_bits(), e.2.to_bits(), q.0, q.1.to_bits(), q.2.to_bits(), q.3.to_bits(), q.4.to_bits(), tr.0.to_bits(), tr.1.to_bits(), tr.2.to_bits()];
                         if with_source {
                             w.push(src);
@@ -627,7 +636,21 @@ macro_rules! family {
                 }
                 let neg = (sp.count_ones() % 2) == 1;
                 let ctx = || format!("scale={:?} angle={:?} translation={:?} source={}", s, angle, tr, src);
-                let (sn, cs) = refm::sincos(dd(angle.to_f64()));
+                let (mut sn, mut cs) = refm::sincos(dd(angle.to_f64()));
+                // an exact multiple of a quarter turn (the generator emits k * FRAC_PI_2 as such): the reference-rounded source is
+                // then the exact matrix, with true zeros, as a transform assembled from columns has them
+                {
+                    let a64 = fin(w[3]);
+                    let k = (a64 / std::f64::consts::FRAC_PI_2).round();
+                    if a64 == k * std::f64::consts::FRAC_PI_2 && k.abs() <= 8.0 {
+                        let (s_, c_) = [(0.0, 1.0), (1.0, 0.0), (0.0, -1.0), (-1.0, 0.0)][(k as i64).rem_euclid(4) as usize];
+                        sn = dd(s_);
+                        cs = dd(c_);
+                        if src == 0 {
+                            t.class("decompose2:exact quarter turn assembled from columns");
+                        }
+                    }
+                }
                 let (sx, sy) = (dd(s[0].to_f64()), dd(s[1].to_f64()));
                 let c6 = [T::from_f64(cs.mul(sx).f()), T::from_f64(sn.mul(sx).f()), T::from_f64(sn.neg().mul(sy).f()), T::from_f64(cs.mul(sy).f()), tr[0], tr[1]];
                 let m = if src == 0 { $A2::from_cols_array(&c6) } else { $A2::from_scale_angle_translation($V2::new(s[0], s[1]), angle, $V2::new(tr[0], tr[1])) };
